@@ -29,4 +29,4 @@ def main(argv):
                             "operations combining two vectors return only coordinates; records behave like vector objects.", extra_checks=extra,
                             # "a record behaves like the equivalent vector object": for the record layout the value / class / coordinate-system contracts
                             # against the object backend (tags C03, C05 of the lattice) belong to this property too
-                            also=lambda tag, oid: tag in ("C03", "C05") and "|ak-record]" in oid)
+                            also=lambda tag, oid: tag in ("C03", "C05") and "|ak-record" in oid)
